@@ -276,6 +276,9 @@ def run(pid, tier):
     proved = True
     if Pp["theorems"]:
         proved = vlib.prove(rep, Pp["modules"], Pp["theorems"], extra_targets=["rtrdriver"])
+    import cfuncheck
+    if pid in cfuncheck.LINKS and pid in cfuncheck.ENABLED:
+        cfuncheck.link(rep, pid)     # translation tie: the C text of the small functions = the model, for every input
     else:
         ok, log = vlib.lake_build(["rtrdriver"])
         rep.cov["checker_cmd"] = "(no theorem registered yet for this property)"
